@@ -34,9 +34,20 @@
 (*             by its residual before it is used;  Vig = ideal get_V       *)
 (*  crit     : a b n -> Pc Tc Vc and, if state, get_Vm(Tc, Pc) both phases  *)
 (*  fromcrit : Tc Pc -> object (a, b) -> Tcb = get_Tc  Pcb = get_Pc        *)
+(*  arr      : the getters that evaluate element-wise on the unmodified     *)
+(*             library (all of IdealGasEOS; vdW get_P, get_T, get_V(n),     *)
+(*             get_n(V), get_Vc(n)) called with float ndarrays, the SAME    *)
+(*             array objects reused from call to call: T0 V0 = the state    *)
+(*             before any call, Tb = get_T(V, get_P(T, V, n), n) and Vb =   *)
+(*             volume solved again from the returned pressure, both read    *)
+(*             from / computed with the arrays the caller still holds;      *)
+(*             pairs = <<array element, scalar call on the original         *)
+(*             state>> as Dec2; touched = names of arguments whose contents *)
+(*             changed during a call.  The docstrings list every parameter  *)
+(*             as `float`: this is a deliberate widening, see notes/C20.md. *)
 (*  raise / nonfinite : a getter raised or returned nan/inf                *)
 (***************************************************************************)
-EXTENDS Dec, TLC, TLCExt, Json, IOUtils
+EXTENDS Dec2, TLC, TLCExt, Json, IOUtils
 
 TraceLog == ndJsonDeserialize(IOEnv.TRACE_FILE)
 VARIABLES l
@@ -108,11 +119,23 @@ FromCritClauses(e) ==
    \cup Fails(/\ Close(Mul(I(27), Mul(Mul(e.b, e.b), SI(e.Pc))), e.a, 6)
               /\ Close(Mul(I(27), Mul(e.b, Mul(Rgas, e.Tc))), Mul(I(8), e.a), 6), "FromCriticalRelations")
 
+\* ---- array-valued states (same array objects reused)
+ArrClauses(e) ==
+   Fails(e.touched = <<>>, "InputUntouched")
+   \cup Fails(e.shapes, "ArrayShape")
+   \cup (IF e.shapes
+         THEN Fails(\A i \in 1..Len(e.T0) : Close(e.Tb[i], e.T0[i], 6), "ArrayRoundTripT")
+              \cup Fails(\A i \in 1..Len(e.V0) : Close(e.Vb[i], e.V0[i], 6), "ArrayRoundTripV")
+              \cup Fails(\A i \in 1..Len(e.pairs) : Close2(e.pairs[i][1], e.pairs[i][2], 13), "ArrayIsMapOfScalar")
+         ELSE {})
+
 Clauses(e) ==
    CASE e.ev = "ideal" -> IdealClauses(e)
+     [] e.ev = "arr" -> ArrClauses(e)
      [] e.ev = "vdw" -> VdwClauses(e)
      [] e.ev = "crit" -> CritClauses(e)
      [] e.ev = "fromcrit" -> FromCritClauses(e)
+     [] e.ev = "arr_refused" -> {}   \* parameters are documented as float: refusing an array is allowed
      [] e.ev = "raise" -> {"Raises"}
      [] e.ev = "nonfinite" -> {"Finite"}
      [] OTHER -> {"UnknownEvent"}
